@@ -50,7 +50,9 @@ def render(trees):
                 body += ["try:", f"    n{c[0]}()", "except Exception:", "    pass"]
             else:
                 body.append(f"n{c[0]}()")
-        body.append({0: "pass", 1: f"raise VerifError('n{name}')", 2: f"tbot.skip('n{name}')", 3: "raise KeyboardInterrupt()"}[b])
+        # a skip with a reason, with an empty reason, or the bare exception: all three are skips
+        skip = [f"tbot.skip('n{name}')", "tbot.skip('')", "raise tbot.SkipException()"][name % 3]
+        body.append({0: "pass", 1: f"raise VerifError('n{name}')", 2: skip, 3: "raise KeyboardInterrupt()"}[b])
         if form == 0:
             lines.append("@tbot.testcase")
             lines.append(f"def n{name}():")
